@@ -525,6 +525,58 @@ func checkCmd(args []string) int {
 			fmt.Printf("VIOLATION property=C16 replay=%s\n", pth)
 		}
 	}
+	// thorough tier: end-to-end cross-check of the real code by the replay probes of the property (bounded, supplementary;
+	// the verdict of the proof obligations above is not changed by a silent probe)
+	probeNotes := map[string]string{}
+	if *tier == "thorough" {
+		type pr struct {
+			name string
+			f    func() (string, bool)
+		}
+		var ps []pr
+		v3s := pr{"score probe v3", func() (string, bool) { return scoreProbe(u, st, *repo, scoreAspect(id)) }}
+		v2s := pr{"score probe v2", func() (string, bool) { return v2ScoreProbe(u, st, *repo, scoreAspect(id)) }}
+		w3 := pr{"decoder witness search v3", func() (string, bool) { return decodeWitnessFor(st, *repo, "v3/metric", id) }}
+		w2 := pr{"decoder witness search v2", func() (string, bool) { return decodeWitnessFor(st, *repo, "v2/metric", id) }}
+		switch id {
+		case "C01", "C02", "C03":
+			ps = []pr{v3s}
+		case "C04", "C05":
+			ps = []pr{v2s}
+		case "C06", "C13", "C14":
+			ps = []pr{v3s, v2s}
+		case "C07":
+			ps = []pr{w3}
+		case "C08":
+			ps = []pr{w2}
+		case "C09", "C10", "C11":
+			ps = []pr{w3, w2}
+			if id == "C11" {
+				ps = append(ps, pr{"sentinel probe", func() (string, bool) { return sentinelProbe(*repo) }})
+			}
+		case "C12":
+			ps = []pr{{"robustness probe v3", func() (string, bool) { return robustProbe(*repo, "v3/metric") }}, {"robustness probe v2", func() (string, bool) { return robustProbe(*repo, "v2/metric") }}}
+		case "C15":
+			ps = []pr{{"purity probe v3", func() (string, bool) { return purityProbe(*repo, "v3/metric") }}, {"purity probe v2", func() (string, bool) { return purityProbe(*repo, "v2/metric") }}, {"purity probe report", func() (string, bool) { return purityProbe(*repo, "v3/report") }}}
+		case "C17":
+			ps = []pr{{"report probe", func() (string, bool) { return reportProbe(st, *repo) }}}
+		case "C18":
+			ps = []pr{{"name probe", func() (string, bool) { return namesProbe(u, *repo) }}}
+		case "C19":
+			ps = []pr{{"template probe", func() (string, bool) { return templateProbe(*repo) }}}
+		}
+		for _, p := range ps {
+			rep, hit := p.f()
+			probeNotes[p.name] = tail(strings.TrimSpace(rep), 400)
+			if hit {
+				violations++
+				os.MkdirAll(replayDir, 0o755)
+				pth := filepath.Join(replayDir, id+"-"+sanitize(p.name)+".txt")
+				os.WriteFile(pth, []byte("end-to-end cross-check of the thorough tier ("+p.name+") found a failing input although no obligation failed:\n"+rep), 0o644)
+				fmt.Printf("VIOLATION property=%s replay=%s\n  %s\n", id, pth, p.name)
+			}
+		}
+	}
 	// vacuity: minimum obligation counts
 	if min, ok := expectedMin[id]; ok && total < min {
 		violations++
@@ -595,6 +647,7 @@ func checkCmd(args []string) int {
 			"integers":               "enumeration values are mathematical Int (only compared); the one integer computation (roundUp's %) is on 64-bit vectors; floating point is bit-precise Float64, never mathematical",
 			"contract_files":         contractFiles(u),
 			"race_detector_cross_check": raceNote,
+			"end_to_end_probes":      probeNotes,
 		},
 	}
 	if !*noEvidence {
